@@ -1037,3 +1037,52 @@ Proof.
     [Ip4 1; Udp 1; QuicV1; P2p pA].
   cbn zeta. repeat split; try (vm_compute; congruence); vm_compute; discriminate.
 Qed.
+
+(* ------------------------------------------------------------------ merging two entries of one address *)
+(* the saturating merge never leaves the u32 range (so there is nothing to overflow or wrap), whatever the counters *)
+Lemma arec_sync_bounded_lemma self other :
+  a_s self <= U32MAX -> a_f self <= U32MAX ->
+  a_s (arec_sync self other) <= U32MAX /\ a_f (arec_sync self other) <= U32MAX.
+Proof.
+  intros Hs Hf. unfold arec_sync. destruct (a_seen self =? a_seen other); [auto|]. cbn [a_s a_f].
+  unfold sat_add. destruct (N.min (a_s self + a_s other) U32MAX =? U32MAX); cbn [fst snd]; [unfold U32MAX; lia|].
+  destruct (N.min (a_f self + a_f other) U32MAX =? U32MAX); cbn [fst snd]; [unfold U32MAX; lia|]. lia.
+Qed.
+
+(* the documented rule: saturating sums, restarted when one of them reaches the maximum *)
+Lemma arec_sync_rule self other :
+  a_seen self <> a_seen other ->
+  let s := N.min (a_s self + a_s other) U32MAX in let f := N.min (a_f self + a_f other) U32MAX in
+  (a_s (arec_sync self other), a_f (arec_sync self other)) =
+    (if s =? U32MAX then (1, 0) else if f =? U32MAX then (0, 1) else (s, f)) /\
+  a_seen (arec_sync self other) = N.max (a_seen self) (a_seen other) /\ a_addr (arec_sync self other) = a_addr self.
+Proof.
+  intros NE. unfold arec_sync. destruct (N.eqb_spec (a_seen self) (a_seen other)); [congruence|].
+  cbn [a_s a_f a_seen a_addr]. unfold sat_add.
+  destruct (_ =? U32MAX); [auto|]. destruct (_ =? U32MAX); auto.
+Qed.
+
+Lemma sync_wrapping_refuted_lemma :
+  let file := mk 1 1 pA 4294967295 0 10 in let mem := mk 1 1 pA 1 0 20 in
+  arec_sync_unchecked Debug mem file = Panic /\
+  (exists r, arec_sync_unchecked Release mem file = Ok r /\ a_s r = 0) /\
+  arec_sync mem file = mk 1 1 pA 1 0 20.
+Proof. repeat split; try (vm_compute; reflexivity). eexists. split; vm_compute; reflexivity. Qed.
+
+(* away from the ends the unchecked merge and the code's merge agree *)
+Lemma arec_sync_unchecked_agrees m self other :
+  a_s self + a_s other <= U32MAX -> a_f self + a_f other <= U32MAX ->
+  arec_sync_unchecked m self other = Ok (arec_sync self other).
+Proof.
+  intros Hs Hf. unfold arec_sync_unchecked, arec_sync, add_w, sat_add.
+  destruct (a_seen self =? a_seen other); [reflexivity|].
+  destruct (N.ltb_spec (a_s self + a_s other) U32); [|unfold U32, U32MAX in *; lia]. cbn [bind].
+  destruct (N.ltb_spec (a_f self + a_f other) U32); [|unfold U32, U32MAX in *; lia]. cbn [bind].
+  rewrite !N.min_l by assumption. reflexivity.
+Qed.
+
+(* a 65-byte text whose two-byte character covers bytes 63-64: showing "the first 64 bytes" by slicing panics *)
+Lemma log_head_slice_refuted_lemma :
+  let t := append (of_codes (repeat 35 63)) (of_codes [195; 164]) in
+  slen t = 65 /\ log_head t = Panic /\ log_head (of_codes (repeat 35 64)) = Ok (of_codes (repeat 35 64)).
+Proof. repeat split; vm_compute; reflexivity. Qed.
